@@ -3,6 +3,7 @@ CONSTANTS
   MaxPeer = 4
   MaxSteps = 3
   Roles = {"client","server"}
+  MaxSess = 2
   Dev = {}
 SPECIFICATION Spec
 INVARIANT C03_ClientAuthn
@@ -11,4 +12,5 @@ INVARIANT C03_MechanismMutual
 PROPERTY C03_StepOnlySelected
 PROPERTY C03_NoStepAfterError
 PROPERTY C03_AuthnStable
+PROPERTY C03_SessionFresh
 CHECK_DEADLOCK FALSE
